@@ -15,7 +15,8 @@ from vlib import sx, lib, model, gen
 
 RULE = ("expression trees over + - * / with two fluents and the constants {0, 1, -2, 0.5} (all trees of depth <= 2: sampled in "
         "quick, complete in thorough; random trees to depth 4) on a k/4 valuation grid; comparison pairs at 0, 1/2, 1, 2 "
-        "tolerances apart at magnitudes 0, 1, 2^10, 2^20 for every operator and EPSILON in {1e-4 default, 1e-2, 0.5, 0.25}; "
+        "tolerances apart at magnitudes 0, 1, 2^10, 2^20 for every operator and EPSILON in {1e-4 default, 1e-2, 0.5, 0.25}, each setting also "
+        "alone with the other at its default; valuations at 2^-14 .. 2^-20 next to the grid (small denominators); "
         "to_pddl under NUMERIC_PRECISION in {default, 0, 2, 6}; a case = (tree, valuation) or (operator, pair, epsilon); "
         "distinct by tree text + valuation / pair; non-trivial when the tree nests - or / on the right or the pair lies within "
         "2 tolerances")
@@ -31,12 +32,15 @@ DOMAIN_T = """(define (domain num) (:requirements :numeric-fluents)
  {actions})"""
 LEAVES = ["(x)", "(y)", "0", "1", "-2", "0.5"]
 OPS = ["+", "-", "*", "/"]
+TINY = [Fraction(1, 2 ** 15), Fraction(-1, 2 ** 14), Fraction(3, 2 ** 16), Fraction(1, 2 ** 20)]
 CMP_OPS = ["=", "<=", ">=", "<", ">"]
 
 
 def plan(tier, seed):
     cfgs = [({}, "default"), ({"EPSILON": "0.01", "NUMERIC_PRECISION": "0"}, "1e-2/np0"),
-            ({"EPSILON": "0.5", "NUMERIC_PRECISION": "2"}, "0.5/np2"), ({"EPSILON": "0.25", "NUMERIC_PRECISION": "6"}, "0.25/np6")]
+            ({"EPSILON": "0.5", "NUMERIC_PRECISION": "2"}, "0.5/np2"), ({"EPSILON": "0.25", "NUMERIC_PRECISION": "6"}, "0.25/np6"),
+            # one setting given, the other left at its default: the two are independent
+            ({"NUMERIC_PRECISION": "2"}, "default/np2"), ({"NUMERIC_PRECISION": "6"}, "default/np6"), ({"EPSILON": "0.25"}, "0.25/default")]
     out = []
     per = 4
     for ci, (envo, name) in enumerate(cfgs):
@@ -95,7 +99,8 @@ def all_dyadic(e, val):
         if not (all_dyadic(e[1], val) and all_dyadic(e[2], val)):
             return False
         v = exact(e, val)
-        return is_dyadic(v) and abs(v) < 2 ** 40
+        # dyadic AND representable: 2^-40 + 2^20 is dyadic but needs 61 significant bits
+        return is_dyadic(v) and abs(v) < 2 ** 40 and Fraction(float(v)) == v
     except ZeroDivisionError:
         return True
 
@@ -157,6 +162,8 @@ def run(ctx):
             ctx.violation("calculate:construct_expression_tree-raises-on-binary-tree", {"expression": t, "observed": lib.exc_name(e)})
             continue
         vals = [(a, b) for a in grid5 for b in grid5] if thorough else [(rng.choice(grid_full), rng.choice(grid_full)) for _ in range(4)]
+        # small magnitudes (dyadic, so still exact): a denominator of 3e-5 is not zero
+        vals += [(rng.choice(TINY + grid5), rng.choice(TINY + grid5)) for _ in range(6 if thorough else 2)]
         for (vx, vy) in vals:
             val = {"x": vx, "y": vy}
             try:
@@ -167,8 +174,14 @@ def run(ctx):
             try:
                 set_vals(node, val)
                 got = calculate(node)
-            except ZeroDivisionError:
-                ctx.count("skipped_library_division_by_zero")  # an intermediate zero the exact evaluation does not have cannot occur: same tree
+            except ZeroDivisionError as e:
+                if all_dyadic(ast, val):
+                    # every intermediate value is exact in binary floating point, and the exact evaluation met no zero denominator
+                    ctx.count("compared:calculate")
+                    ctx.violation("calculate:division-by-a-nonzero-value-refused", {"expression": t, "valuation": {k: str(v) for k, v in val.items()},
+                                                                                    "expected": str(ev), "observed": lib.exc_name(e)})
+                    break
+                ctx.count("skipped_library_division_by_zero")
                 continue
             except BaseException as e:
                 ctx.violation("calculate:raises", {"expression": t, "valuation": {k: str(v) for k, v in val.items()}, "observed": lib.exc_name(e)})
